@@ -254,6 +254,15 @@ def rnd_mag(rng, cls):
     return rng.randrange(10 ** 26, 10 ** 29)
 
 
+def near_denoms(key):
+    """Bank denoms that are NOT `key` but look like it (extension, truncation, prefix, other case)."""
+    return [key + 'x', key[:-1], 'x' + key, key.upper()]
+
+
+def junk_denom(rng, key):
+    return rng.choice(['ujunk'] + near_denoms(key))
+
+
 def gen_scenario(rng):
     kind = rng.choice(['nn', 'nt', 'tn', 'tt'])
     dec = rng.choice([(6, 6), (18, 18), (6, 18), (18, 6)])
@@ -261,7 +270,7 @@ def gen_scenario(rng):
     assets = [mk[('n' if kind[0] == 'n' else 't') + '0'], mk[('n' if kind[1] == 'n' else 't') + '1']]
     cr = rng.choice(['3000000000000000', '0', '300000000000000000', '3333333333333333', '30000000000000000'])
     big = str(10 ** 33)
-    natives = {a: {'uusd': big, 'uaura': big, 'ujunk': big} for a in ACTORS}
+    natives = {a: dict([('uusd', big), ('uaura', big), ('ujunk', big)] + [(j, big) for k_ in ('uusd', 'uaura') for j in near_denoms(k_)]) for a in ACTORS}
     natives['admin'] = {'uusd': '10', 'uaura': '10'}
     tokens = [{'name': 'A', 'decimals': dec[0], 'balances': {a: big for a in ACTORS}}, {'name': 'B', 'decimals': dec[1], 'balances': {a: big for a in ACTORS}}]
     mins = [str(rng.choice([0, 0, 1000])), str(rng.choice([0, 0, 1000]))]
@@ -312,9 +321,9 @@ def gen_scenario(rng):
                     elif ch == 1:
                         st['funds'] = {key: str(amt + rng.randrange(1, 1000))}
                     elif ch == 2:
-                        st['funds'] = {'ujunk': str(amt)}
+                        st['funds'] = {junk_denom(rng, key): str(amt)}
                     elif ch == 3:
-                        st['funds'] = {'ujunk': str(amt), key: str(amt // 2)}
+                        st['funds'] = {junk_denom(rng, key): str(amt), key: str(amt // 2)}
                     else:
                         st['named_idx'] = 1 - oi
                 else:
@@ -352,6 +361,10 @@ def gen_scenario(rng):
                     amts = [d0, d1]
                     st['funds'] = {assets[i]['native']: str(amts[i]) for i in nat}
                     st['funds'][k_] = str(max(0, amts[j] + rng.choice([-1, 1, -amts[j]])))
+                    if rng.random() < 0.4:
+                        # the named denom is not attached at all; a look-alike denom carries the amount instead
+                        del st['funds'][k_]
+                        st['funds'][junk_denom(rng, k_)] = str(amts[j])
                 elif ch == 1 and nat:
                     # second declared asset replaced by an unrelated attached denom
                     j = rng.randrange(2)
